@@ -51,7 +51,7 @@ def props_staging(rep):
         ex.explore('@digital_rf_handle_metadata', setup, on_path)
     except Exception as e:
         rep.ob('channel properties file publication', 'inconclusive', detail=str(e)[:200]); return
-    unstaged = [f for f in found if '/tmp.' not in f[0] and f[1] > 0 and not f[3]]
+    unstaged = [f for f in found if not f[0].rsplit('/', 1)[-1].startswith('tmp.') and f[1] > 0 and not f[3]]
     if not found:
         rep.ob('channel properties file publication', 'inconclusive', detail='create branch not reached'); return
     if not unstaged:
